@@ -81,7 +81,8 @@ Full statement / proved / missing
                       `types` (family fieldwrites, regenerated on every run), is one of the REVIEWED rows (construction,
                       guarded lazy caches, the one mutator, in-place completion of parsed types); by `decide`.  THE
                       obligation seeded change C08-s11 breaks (`e.arguments = …` in `(*deferred).Resolve`).
-  `C08_resolve_frame` — FULL statement for one resolution, proved: for every table with `FieldWritesSafe`, every scope and
+  `C08_resolve_frame` — FULL statement for one resolution (`ResolveDeferred` and the `resolveValue` of DeferredType
+                      parameters alike), proved: for every table with `FieldWritesSafe`, every scope and
                       every value whose memos are sound (true of every freshly built value), after `resolveW` the value
                       has the observable content it had (`erase`, hence the same walk / text), its memos are still sound,
                       and the answer is the pure `resolve sc v`.
@@ -93,7 +94,10 @@ Full statement / proved / missing
                       `(*deferred).Resolve` assigns `e.arguments`, the list `['x', Deferred('$v', [Deferred('$k')])]` reads
                       `['x', Deferred('$v', ['a'])]` after one resolution, and a second resolution in a scope where
                       `$k = 'b'` answers `['x', 1]` instead of `['x', 2]`.
-                      Not modelled: a DeferredType WITH parameters (`resolveValue`; harness predicate only), the same
+                      DeferredTypes WITH parameters are inside the model (`resolveValue` with the empty scope,
+                      `ResolveWithParams` for Array / Optional / Type / NotUndef / Tuple over type parameters; the memo is
+                      filled on success only, a memo hit visits nothing).  Not modelled: other parameterised types
+                      (harness predicate only, op resp), the same
                       Deferred object held at two places of one value (the implementation-layer model is a tree: exact for
                       the code as it is — by the frame theorem nothing is written, so sharing cannot be observed — and
                       only an approximation of a memoising mutant), functions other than the harness's `verif_list`.
@@ -506,13 +510,13 @@ theorem C08_field_writes_safe : FieldWritesSafe fieldWrites := by decide
 
 /-- ONE resolution leaves the value as it was — same observable content, hence the same walk — keeps its memos sound,
     and answers what the pure function answers -/
-theorem C08_resolve_frame (tbl : List FieldWrite) (ht : FieldWritesSafe tbl) (sc : List RV) (v : RV)
+theorem C08_resolve_frame (tbl : List FieldWrite) (ht : FieldWritesSafe tbl) (deep : Bool) (sc : List RV) (v : RV)
     (hm : v.memoOK = true) :
-    (resolveW (Writes.ofTable tbl) sc v).1.erase = v.erase ∧
-    (resolveW (Writes.ofTable tbl) sc v).1.render = v.render ∧
-    (resolveW (Writes.ofTable tbl) sc v).1.memoOK = true ∧
-    (resolveW (Writes.ofTable tbl) sc v).2 = resolve sc v := by
-  obtain ⟨h1, h2, h3⟩ := resolveW_frame (Writes.ofTable tbl) (safe_dfrArgs ht) sc v hm
+    (resolveW (Writes.ofTable tbl) deep sc v).1.erase = v.erase ∧
+    (resolveW (Writes.ofTable tbl) deep sc v).1.render = v.render ∧
+    (resolveW (Writes.ofTable tbl) deep sc v).1.memoOK = true ∧
+    (resolveW (Writes.ofTable tbl) deep sc v).2 = resolve deep sc v := by
+  obtain ⟨h1, h2, h3⟩ := resolveW_frame (Writes.ofTable tbl) (safe_dfrArgs ht) deep sc v hm
   refine ⟨h1, ?_, h2, h3⟩
   rw [← render_erase, h1, render_erase]
 
@@ -521,7 +525,7 @@ theorem C08_resolve_frame (tbl : List FieldWrite) (ht : FieldWritesSafe tbl) (sc
 theorem C08_resolve_history_free (tbl : List FieldWrite) (ht : FieldWritesSafe tbl) (v : RV) (hm : v.memoOK = true)
     (scs : List (List RV)) :
     (resolveSeq (Writes.ofTable tbl) v scs).1.render = v.render ∧
-    (resolveSeq (Writes.ofTable tbl) v scs).2.map answerText = scs.map (fun sc => answerText (resolve sc v)) := by
+    (resolveSeq (Writes.ofTable tbl) v scs).2.map answerText = scs.map (fun sc => answerText (resolve false sc v)) := by
   obtain ⟨h1, _, h3⟩ := resolveSeq_frame (Writes.ofTable tbl) (safe_dfrArgs ht) scs v hm
   constructor
   · rw [← render_erase, h1, render_erase]
@@ -531,7 +535,7 @@ theorem C08_resolve_history_free (tbl : List FieldWrite) (ht : FieldWritesSafe t
 /-- instantiated on the code as it is now -/
 theorem C08_resolve_impl (v : RV) (hm : v.memoOK = true) (scs : List (List RV)) :
     (resolveSeq (Writes.ofTable fieldWrites) v scs).1.render = v.render ∧
-    (resolveSeq (Writes.ofTable fieldWrites) v scs).2.map answerText = scs.map (fun sc => answerText (resolve sc v)) :=
+    (resolveSeq (Writes.ofTable fieldWrites) v scs).2.map answerText = scs.map (fun sc => answerText (resolve false sc v)) :=
   C08_resolve_history_free fieldWrites C08_field_writes_safe v hm scs
 
 /-- `['x', Deferred('$v', [Deferred('$k')])]` -/
@@ -543,19 +547,30 @@ def seedScope (k : String) : List RV :=
 /-- non-vacuity: the hypotheses of the two theorems above hold of the regenerated table and of a value with a nested
     Deferred whose two scopes give different answers -/
 example : FieldWritesSafe fieldWrites ∧ seedList.memoOK = true ∧
-    (resolve (seedScope "a") seedList).toOption.map RV.render = some "(a (s x78) (i 1))" ∧
-    (resolve (seedScope "b") seedList).toOption.map RV.render = some "(a (s x78) (i 2))" := by
+    (resolve false (seedScope "a") seedList).toOption.map RV.render = some "(a (s x78) (i 1))" ∧
+    (resolve false (seedScope "b") seedList).toOption.map RV.render = some "(a (s x78) (i 2))" := by
   refine ⟨C08_field_writes_safe, by decide, by decide +kernel, by decide +kernel⟩
+
+/-- a DeferredType WITH parameters inside a list: `[DeferredType(Array, [verif_first(DeferredType(Tuple, [Integer, Any]))])]`
+    resolves to `[Array[Tuple[Integer, Any]]]`, its memos are sound before and after, and the frame theorem applies -/
+def paramList : RV :=
+  .arr [.dty "Array" [.dfr "verif_first" [.dty "Tuple" [.dty "Integer" [] none, .dty "Any" [] none] none]] none]
+example : paramList.memoOK = true ∧
+    (resolve false [] paramList).toOption.map RV.render =
+      some "(a (t x41727261795b5475706c655b496e74656765722c20416e795d5d))" ∧
+    (resolveW (Writes.ofTable fieldWrites) false [] paramList).1.render = paramList.render := by
+  refine ⟨by decide +kernel, by decide +kernel, ?_⟩
+  exact (C08_resolve_frame fieldWrites C08_field_writes_safe false [] paramList (by decide +kernel)).2.1
 
 /-- the constructive converse (seeded change C08-s11): when `(*deferred).Resolve` stores the resolved arguments into the
     Deferred, (1) the first answer is still right, (2) the LIST that was resolved holds `Deferred('$v', ['a'])`
     afterwards, (3) a second resolution in a scope with `$k = 'b'` answers the first scope's `['x', 1]`, where (4) the
     value as it was answers `['x', 2]` -/
 theorem C08_resolve_memo_breaks (W : Writes) (hW : W.dfrArgs = true) :
-    (resolveW W (seedScope "a") seedList).2 = .ok (.arr [.str "x", .int 1]) ∧
-    (resolveW W (seedScope "a") seedList).1 = .arr [.str "x", .dfr "$v" [.str "a"]] ∧
+    (resolveW W false (seedScope "a") seedList).2 = .ok (.arr [.str "x", .int 1]) ∧
+    (resolveW W false (seedScope "a") seedList).1 = .arr [.str "x", .dfr "$v" [.str "a"]] ∧
     (resolveSeq W seedList [seedScope "a", seedScope "b"]).2 = [.ok (.arr [.str "x", .int 1]), .ok (.arr [.str "x", .int 1])] ∧
-    resolve (seedScope "b") seedList = .ok (.arr [.str "x", .int 2]) := by
+    resolve false (seedScope "b") seedList = .ok (.arr [.str "x", .int 2]) := by
   obtain ⟨a, b⟩ := W
   simp only at hW
   subst hW
